@@ -180,7 +180,14 @@ def _oi(s):
 
 
 # ------------------------------------------------------------------ implementation side
-def impl(line: str) -> str:  # noqa: C901, PLR0911, PLR0912
+def impl(line: str) -> str:
+    try:
+        return _impl(line)
+    except Exception as e:  # noqa: BLE001 - never let the real code's surprise take the harness down
+        return f"err escaped:{type(e).__name__}"
+
+
+def _impl(line: str) -> str:  # noqa: C901, PLR0911, PLR0912
     t = line.split(" ")
     op = t[0]
     if op.startswith("der.") or op.startswith("bms."):
@@ -513,8 +520,20 @@ def _o_bms(w):
     return True, "ok"
 
 
-ORACLES = {"chain.toy": _o_chain_toy, "sec1.toy": _o_sec1_toy, "chain.pub": _o_chain_pub,
-           "der.roundtrip": _o_der_roundtrip, "der.canonical": _o_der_canonical, "bms.chain": _o_bms}
+def _safe(fn):
+    """an exception escaping an oracle is itself a failure of the property (a step that must succeed raised)."""
+    def g(w):
+        try:
+            return fn(w)
+        except Exception as e:  # noqa: BLE001
+            return False, f"{fn.__name__} step raised {type(e).__name__}: {e}"
+    g.__name__ = fn.__name__
+    return g
+
+
+ORACLES = {k: _safe(v) for k, v in {
+    "chain.toy": _o_chain_toy, "sec1.toy": _o_sec1_toy, "chain.pub": _o_chain_pub,
+    "der.roundtrip": _o_der_roundtrip, "der.canonical": _o_der_canonical, "bms.chain": _o_bms}.items()}
 
 
 # ------------------------------------------------------------------ generators
@@ -650,7 +669,7 @@ def run(ctx):  # noqa: C901, PLR0912, PLR0915
                  for ls in (0, 1)]
         ctx.stream(f"toy.sign[{name}]", lines)
         ctx.exhaustive_streams.append(f"toy.sign[{name}]")
-        cs = list(range(n)) if thorough else sorted({0, 1, n - 1, rng.randrange(n), rng.randrange(n)})
+        cs = list(range(n)) if thorough else sorted({0, n - 1, rng.randrange(1, n - 1)})
         for c in range(n):
             for q in range(1, n):
                 for k in (range(1, n) if (thorough or c in cs) else [rng.randrange(1, n)]):
@@ -809,6 +828,12 @@ def run(ctx):  # noqa: C901, PLR0912, PLR0915
         ctx.check("der.canonical", {"b": b.hex()})
     ctx.stream("der.parse", dlines, nontrivial=lambda ln, out: True)
     vl = [f"der.parsev {rng.randrange(2)} {hx(b)}" for _, b in cases[: ctx.n(400)]]
+    # Sig.assert_valid at its edges, through the validating parser (secp256k1)
+    n1 = secp256k1.n
+    good_r = [x for x in range(1, 12)]
+    for r in [0, 1, n1 - 1, n1, n1 + 1, 2 ** 256 - 1, *good_r, rng.randrange(1, n1), rng.randrange(1, n1)]:
+        for s in [0, 1, n1 // 2, n1 // 2 + 1, n1 - 1, n1, n1 + 1, rng.randrange(1, n1)]:
+            vl.append(f"der.parsev 1 {hx(dsa.Sig(r, s, check_validity=False).serialize(check_validity=False))}")
     ctx.stream("der.parsev", vl)
     sl = []
     for _ in range(ctx.n(400)):
